@@ -549,6 +549,27 @@ def run(ctx):
                     nsp += 1
                     ctx.violation(Finding('R-STOPPLUS1', rp_, q_, api.stmt_of(c), '%s: when the index is -1 the stop is 0 and the selection is empty (and a run that crosses from negative to '
                                           'non-negative indices cannot be a slice at all)' % norm(c)))
+        # the same default written as data: `bounds.append(bounds[-1] + 1)` where the list is then unpacked into the bounds of a subscript
+        sliced = set(x.id for sl in walk_expr(f_) if isinstance(sl, ast.Slice) for part in (sl.lower, sl.upper, sl.step) if part is not None for x in ast.walk(part) if isinstance(x, ast.Name))
+        unpacked_from = set()
+        for st in iter_stmts(f_.body):
+            if isinstance(st, ast.Assign) and len(st.targets) == 1 and isinstance(st.targets[0], (ast.Tuple, ast.List)) and isinstance(st.value, ast.Name) \
+                    and any(isinstance(t_, ast.Name) and t_.id in sliced for t_ in st.targets[0].elts):
+                unpacked_from.add(st.value.id)
+        for c in walk_expr(f_):
+            if isinstance(c, ast.Call) and isinstance(c.func, ast.Attribute) and c.func.attr == 'append' and isinstance(c.func.value, ast.Name) and c.func.value.id in unpacked_from and c.args:
+                a0 = c.args[0]
+                if isinstance(a0, ast.BinOp) and isinstance(a0.op, ast.Add) and isinstance(a0.right, ast.Constant) and a0.right.value == 1:
+                    nsp += 1
+                    ctx.violation(Finding('R-STOPPLUS1', rp_, q_, api.stmt_of(c), '%s supplies the stop of a one-element selection as <index> + 1: for the index -1 the stop is 0 and the selection is empty '
+                                          "(slice_dim(f, 'x,-1') returns no element instead of the last one)" % norm(c)))
+        if q_ == 'slice_dim':
+            for st in iter_stmts(f_.body):
+                if isinstance(st, ast.Assign) and len(st.targets) == 1 and isinstance(st.targets[0], ast.Name) and st.targets[0].id in sliced:
+                    a0 = st.value
+                    if isinstance(a0, ast.BinOp) and isinstance(a0.op, ast.Add) and isinstance(a0.right, ast.Constant) and a0.right.value == 1 and isinstance(a0.left, ast.Name) and a0.left.id in sliced:
+                        nsp += 1
+                        ctx.violation(Finding('R-STOPPLUS1', rp_, q_, st, '%s supplies the stop of a one-element selection as <index> + 1: for the index -1 the stop is 0 and the selection is empty' % norm(st)))
         # bounds resolved with slice.indices() are positions for range(), not bounds for another subscript: with a negative step the open
         # stop resolves to -1, which as a bound means "the last element"
         resolved = set()
